@@ -12,7 +12,8 @@ Derived from the property statement (and DESIGN.md C12), not from dumpparser.py:
   the four helper templates  !  =  ((  ))  exist afterwards (added when the dump did not
   provide them).
 
-A page is a dict {"uid", "title", "ns", "model", "text", "redirect"} (redirect None or target).
+A page is a dict {"uid", "title", "ns", "model", "text", "redirect"} (redirect None or target); "phase": 0 marks a
+page of an EARLIER dump that the same context ingested into the same database before the dump under test.
 """
 from __future__ import annotations
 
@@ -42,10 +43,14 @@ def exclusion_reason(page, selected):
     return None
 
 
-def expected_table(pages, selected, template_prefix):
-    """-> (table, reasons): table[(title, ns)] = {"body", "body_alt", "model", "redirect", "uid", "default"}"""
+def expected_table(pages, selected, template_prefix, base=None, defaults=True):
+    """-> (table, reasons): table[(title, ns)] = {"body", "body_alt", "model", "redirect", "uid", "default"}
+
+    base: the table the store already holds (an earlier ingestion into the same database): its rows stay unless a
+    page of this dump has the same (title, ns) -- last wins.  defaults=False: helper templates are not added
+    (parse_dump_xml() alone).  Reading pages never changes the table."""
     selected = set(selected)
-    table = {}
+    table = dict(base) if base else {}
     reasons = {}
     for p in pages:
         r = exclusion_reason(p, selected)
@@ -62,7 +67,7 @@ def expected_table(pages, selected, template_prefix):
             body = alt = p["text"]
         table[(p["title"], p["ns"])] = {"body": body, "body_alt": alt, "model": p["model"],
                                         "redirect": p.get("redirect"), "uid": p["uid"], "default": None}
-    for name in DEFAULTS:
+    for name in DEFAULTS if defaults else ():
         key = (template_prefix + ":" + name, TEMPLATE_NS)
         if key not in table:
             table[key] = {"body": DEFAULTS[name][0], "body_alt": None, "model": "wikitext", "redirect": None,
